@@ -13,7 +13,7 @@ import (
 	"strings"
 	"time"
 
-	"github.com/whoisnian/glb/zzverif/vsched"
+	"verif/engine/shim/vsched"
 	"verif/engine/vcommon"
 )
 
